@@ -168,17 +168,27 @@ def run(R):
 
     # DRAIN idiom
     sf = ro.stack_field()
-    loops = [n for n in ast.walk(drain.node) if isinstance(n, ast.While)]
-    ok = False
-    for lp in loops:
-        k, s, pos = q.atom_test(lp.test)
-        if k == "lt" and pos and s[1] == "len(self.%s)" % sf:
-            hv = s[0]
-            vals = common.assigned_values(drain.node, hv)
-            if len(vals) == 1 and vals[0][0] == "expr" and q.src(vals[0][1]) == "len(self.%s)" % sf:
-                ok = True
-        if k == "eq" and not pos and "len(self.%s)" % sf in s:
-            ok = True
+    # the drain leaves its loop normally only over the edge "current height <= height recorded at entry" (the test may be the
+    # while condition or an if/break inside `while True`; the current height may have been read into a local first)
+    hname_, cur_ = common.stack_height_names(ro)
+    dcfg2 = cfg_of(drain)
+
+    def back_at_entry(e):
+        nd = dcfg2.nodes[e.src]
+        if nd.kind != "test":
+            return False
+        k, s, pos = q.atom_test(nd.ast)
+        if k == "lt" and s[0] == hname_ and s[1] in cur_:          # entry < current : the loop goes on over the T edge
+            return e.label == ("F" if pos else "T")
+        if k == "lt" and s[1] == hname_ and s[0] in cur_:          # current < entry (cannot happen) : either edge leaves
+            return True
+        if k == "eq" and hname_ in s and any(x in cur_ for x in s):
+            return e.label == ("T" if pos else "F")
+        return False
+    pushes_ = [n for n, c in kit.call_sites(drain, lambda c: q.call_name(c) == "self.%s.append" % sf)]
+    starts_ = [e.dst for n in pushes_ for e in dcfg2.out_edges(n.id, N)]
+    p_ = dcfg2.find_path(starts_, [dcfg2.exit], N, keep_edge=lambda e: not back_at_entry(e)) if (hname_ and starts_) else "no entry height"
+    ok = p_ is None
     R.check(ok, "C04.DRAIN", drain.qualname, R.site(drain),
             "the drain loops until the stack is back at the height recorded at entry",
             "the drain's loop condition no longer compares the stack height with the height recorded at entry")
